@@ -116,6 +116,7 @@ var templateSrc = []struct {
 	{"lfr", "l", "funcall-lambda-evaluated-again-under-a-new-binding", "(mapcar (lambda (n) (let ((x n)) (funcall (lambda (a) (setq x (+ x a)) (list a x ?a+a+x*)) ?i+x*))) (list ?i ?i))", 0},
 	{"lsr", "l", "funcall-sharp-quote-lambda-evaluated-again-under-a-new-binding", "(mapcar (lambda (n) (let ((x n)) (funcall #'(lambda (a) (setq x (+ x a)) (list a x ?a+a+x*)) ?i+x*))) (list ?i ?i))", 0},
 	{"lhd", "l", "lambda-form-call-in-a-function-called-twice", "(let () (defun NAME (n) ((lambda (a) (list a n ?a+a+n*)) ?i+n*)) (list (NAME ?i) (NAME ?i)))", 0},
+	{"lbk", "l", "lambda-body-is-a-bare-keyword-or-constant", "(list (funcall (lambda (a) :kw) ?i) (apply (lambda (a) :kw2) (list ?i)) (funcall (lambda (a) nil) ?i) (funcall (lambda (a) t) ?i) (funcall (lambda (a) 7) ?i))", 0},
 	{"ltf", "r", "let-lambda", "(let ((f (lambda (a) ?i+a*))) ?r+f&)", 2},
 	{"lmc", "r", "lambda-form-call", "((lambda (a b) ?a+a+b* ?r+a+b*) ?i ?i)", 2},
 	{"lmf", "r", "funcall-lambda", "(funcall (lambda (a b) ?r+a+b*) ?i ?i)", 0},
